@@ -101,7 +101,9 @@ MeshWF(e) == /\ \A i \in DOMAIN e.tets : TetDet(e, e.tets[i]) # 0
 RECURSIVE ShoeR(_, _)
 ShoeR(r, i) == IF i > Len(r) THEN 0
                ELSE LET a == r[i]  b == r[(i % Len(r)) + 1] IN a[1] * b[2] - a[2] * b[1] + ShoeR(r, i + 1)
-RotM(e, Q) == IF e.m = "quarter" THEN Mat2(RotTab[QuarterNames[((Q.val[e.an][1] \div (F * Q.w)) % 4) + 1]])
+\* quarter turns of a "quarter" node at Q: ao + value(an) [+ value(an2)]  (an2 = "": an angle function of one variable)
+QTurns(e, Q) == e.ao + (Q.val[e.an][1] \div (F * Q.w)) + (IF e.an2 = "" THEN 0 ELSE Q.val[e.an2][1] \div (F * Q.w))
+RotM(e, Q) == IF e.m = "quarter" THEN Mat2(RotTab[QuarterNames[(QTurns(e, Q) % 4) + 1]])
               ELSE IF e.m \in DOMAIN RotTab THEN Mat2(RotTab[e.m]) ELSE Rot3Tab[e.m]
 \* the point whose image under the rotation is Q (inverse rotation R^T about p), on the scale multiplied by h
 RotBack(e, Q) == LET mh == RotM(e, Q)  M == mh[1]  h == mh[2]  p == AffV(e.p, Q)  q == Q.val[e.v]
@@ -190,7 +192,7 @@ FreeVars(e) ==
     [] e.k \in {"union", "cut", "and"} -> FreeVars(e.l) \cup FreeVars(e.r)
     [] e.k = "prod" -> (FreeVars(e.l) \ SpaceVars(e.r)) \cup FreeVars(e.r)
     [] e.k = "trans" -> FreeVars(e.d) \cup AffVVars(e.t)
-    [] e.k = "rot" -> FreeVars(e.d) \cup AffVVars(e.p) \cup (IF e.m = "quarter" THEN {e.an} ELSE {})
+    [] e.k = "rot" -> FreeVars(e.d) \cup AffVVars(e.p) \cup (IF e.m = "quarter" THEN {e.an, e.an2} \ {""} ELSE {})
     [] e.k \in {"bd", "bdl", "bdr"} -> FreeVars(e.d)
 RECURSIVE PE(_, _)
 PE(e, b) ==
@@ -201,8 +203,14 @@ PE(e, b) ==
     [] e.k \in {"poly", "mesh"} -> e
     [] e.k \in {"union", "cut", "and", "prod"} -> [e EXCEPT !.l = PE(e.l, b), !.r = PE(e.r, b)]
     [] e.k = "trans" -> [e EXCEPT !.d = PE(e.d, b), !.t = AffVPE(e.t, b)]
-    [] e.k = "rot" -> IF e.m = "quarter" /\ e.an \in DOMAIN b
-                      THEN [k |-> "rot", v |-> e.v, d |-> PE(e.d, b), m |-> QuarterNames[(b[e.an] % 4) + 1], p |-> AffVPE(e.p, b)]
+    \* a quarter-turn node: bound angle variables add to the offset ao; with no angle variable left it is a constant quarter turn
+    [] e.k = "rot" -> IF e.m = "quarter"
+                      THEN LET ns == {e.an, e.an2} \ {""}
+                               rest == ns \ DOMAIN b
+                               ao2 == e.ao + SumOver(ns \cap DOMAIN b, [n \in ns \cap DOMAIN b |-> b[n]])
+                           IN IF rest = {} THEN [k |-> "rot", v |-> e.v, d |-> PE(e.d, b), m |-> QuarterNames[(ao2 % 4) + 1], p |-> AffVPE(e.p, b)]
+                              ELSE LET n1 == IF e.an \in rest THEN e.an ELSE e.an2 IN
+                                   [e EXCEPT !.d = PE(e.d, b), !.p = AffVPE(e.p, b), !.ao = ao2, !.an = n1, !.an2 = IF rest = {n1} THEN "" ELSE e.an2]
                       ELSE [e EXCEPT !.d = PE(e.d, b), !.p = AffVPE(e.p, b)]
     [] e.k \in {"bd", "bdl", "bdr"} -> [e EXCEPT !.d = PE(e.d, b)]
 
